@@ -6,8 +6,10 @@ from vf.props import apigen as ag
 PN = {0: "znx_small_single_product", 1: "svp_prepare+svp_apply_dft+idft", 2: "vmp_prepare+vmp_apply_dft+idft_tmp_a", 3: "vmp_prepare+vec_znx_dft+vmp_apply_dft_to_dft+idft_tmp_a"}
 
 
-def prod_ob(tdir, path, nn, avx, rsz=1, asz=1, asl=None, nrows=1, ncols=1, tmpa=False, timeout=None, tag=""):
+def prod_ob(tdir, path, nn, avx, rsz=1, asz=1, asl=None, nrows=1, ncols=1, tmpa=False, timeout=None, tag="", toffs=0):
     d = {"PATH": path, "NN": nn, "MM": nn // 2, "AVX": avx, "RSZ": rsz, "ASZ": asz, "ASL": asl if asl is not None else nn, "NROWS": nrows, "NCOLS": ncols}
+    if toffs:
+        d["TOFFS"] = toffs
     if tmpa:
         d["TMPA"] = None
     name = "%s%s/N=%d/avx=%d" % (tag, PN[path], nn, avx)
@@ -19,6 +21,8 @@ def prod_ob(tdir, path, nn, avx, rsz=1, asz=1, asl=None, nrows=1, ncols=1, tmpa=
         name += "/tmp_a"
     if d["ASL"] != nn:
         name += "/asl=N+%d" % (d["ASL"] - nn)
+    if toffs:
+        name += "/scratch+%dB" % (8 * toffs)
     import struct
     na = (1 if path == 0 else asz) * nn
     nb = nn if path <= 1 else nrows * ncols * nn
